@@ -69,6 +69,13 @@ func c19Rep(s string, n int, sep string) string {
 
 var c19Tmpls = map[string]c19Tmpl{
 	"seq": {code: func(n, w int) string { return c19Rep("tick 0", n, "\n") }, total: func(n, w int) int { return n }},
+	// a background job started earlier in the same frame must not take the
+	// foreground code that follows it out of the reach of the interrupt
+	"bg-seq": {code: func(n, w int) string { return "nop &\n" + c19Rep("tick 0", n, "\n") }, total: func(n, w int) int { return n }},
+	"bg-fn": {code: func(n, w int) string {
+		return fmt.Sprintf("fn f { nop &; tick 0; tick 0 }; for x [(range %d)] { f }", n)
+	}, total: func(n, w int) int { return 2 * n }},
+	"bg-sleep": {code: func(n, w int) string { return "nop &\n" + c19Rep("tick 0", n, "\n") + "\nsleep 1000" }, total: func(n, w int) int { return n }, mustStop: true},
 	"for": {code: func(n, w int) string { return fmt.Sprintf("for x [(range %d)] { tick 0; tick 0 }", n) }, total: func(n, w int) int { return 2 * n }},
 	"while": {code: func(n, w int) string {
 		return fmt.Sprintf("var i = 0; while (< $i %d) { tick 0; set i = (+ $i 1) }", n)
@@ -333,7 +340,7 @@ type c19Inst struct {
 
 func c19Instances(tier string) []c19Inst {
 	out := []c19Inst{
-		{"seq", 5, 0}, {"seq", 12, 0}, {"for", 3, 0}, {"for", 6, 0}, {"while", 4, 0}, {"while", 9, 0},
+		{"seq", 5, 0}, {"seq", 12, 0}, {"bg-seq", 5, 0}, {"bg-fn", 3, 0}, {"bg-sleep", 3, 0}, {"for", 3, 0}, {"for", 6, 0}, {"while", 4, 0}, {"while", 9, 0},
 		{"each", 3, 0}, {"each", 6, 0}, {"fn", 3, 0}, {"fn", 6, 0}, {"capture", 4, 0}, {"capture", 8, 0},
 		{"try", 2, 0}, {"try", 4, 0}, {"defer", 2, 0}, {"defer", 4, 0},
 		{"pipe", 4, 0}, {"pipe", 8, 0}, {"pipe-sleep", 5, 0}, {"runpar-sleep", 5, 0}, {"runpar", 3, 0}, {"runpar", 5, 0},
@@ -417,7 +424,7 @@ func c19GenAsync(t *rapid.T) c19Case {
 func init() {
 	vs.Register(vs.Prop[c19Case]{
 		Name: "C19/sweep",
-		Rule: "17 program templates (statement sequence, for, while, each, recursive fn, output capture, try/catch/finally, defer, 3-stage pipeline, pipeline and run-parallel with `sleep 1000`, run-parallel, peach, peach &num-workers with closure / Go-function / piped inputs, bounded peach nested in each) x 1-3 sizes; for each instance every tick index K in 0..total is a case: the K-th `tick` to arrive cancels EvalCfg.Interrupts synchronously (K=total: nobody cancels; not for the sleep templates). GOMAXPROCS in {1,2,4,16} and the tick yield pattern vary with the seed. Non-trivial = the interrupt is delivered (K<total)",
+		Rule: "20 program templates (statement sequence, the same after a background job `nop &` in the frame or in a function, for, while, each, recursive fn, output capture, try/catch/finally, defer, 3-stage pipeline, pipeline and run-parallel with `sleep 1000`, run-parallel, peach, peach &num-workers with closure / Go-function / piped inputs, bounded peach nested in each) x 1-3 sizes; for each instance every tick index K in 0..total is a case: the K-th `tick` to arrive cancels EvalCfg.Interrupts synchronously (K=total: nobody cancels; not for the sleep templates). GOMAXPROCS in {1,2,4,16} and the tick yield pattern vary with the seed. Non-trivial = the interrupt is delivered (K<total)",
 		Enum: c19Enum, Check: c19Check, Class: c19Class,
 		Shards: 8, Timeout: 45 * time.Second,
 		Known: []vs.Known[c19Case]{
